@@ -349,13 +349,24 @@ fn c03(quick: bool) -> Vec<Harness> {
             if quick && tasks > 1 {
                 continue;
             }
-            v.push(th_harness("C03", c03_threads(C03Cfg { sq, prefill, kind, repoll_fresh: repoll, tasks, max_polls: 5, sqpoll: false }, pb)));
+            v.push(th_harness("C03", c03_threads(C03Cfg { sq, prefill, kind, repoll_fresh: repoll, tasks, max_polls: 5, sqpoll: false, poll_none: false }, pb)));
         }
         // With a kernel thread the queue is drained at any moment, also between a failed submission and the registration of the waiter.
         for (sq, prefill) in [(1u32, 1usize), (2, 2)] {
-            let mut h = c03_threads(C03Cfg { sq, prefill, kind: Kind::ReadVec, repoll_fresh: false, tasks: 1, max_polls: 4, sqpoll: true }, pb);
+            let mut h = c03_threads(C03Cfg { sq, prefill, kind: Kind::ReadVec, repoll_fresh: false, tasks: 1, max_polls: 4, sqpoll: true, poll_none: false }, pb);
             h.free_bound = if quick { 2 } else { 0 };
             v.push(th_harness("C03", h));
+        }
+    }
+    {
+        use crate::thworld::{C03Cfg, c03_threads};
+        // The ring thread polls without a timeout while a task finds the queue full: nothing but the
+        // task's own (not yet submitted) operation could ever complete.
+        for (sq, prefill, tasks) in [(1u32, 1usize, 1usize), (2, 2, 1), (1, 1, 2)] {
+            if quick && tasks > 1 {
+                continue;
+            }
+            v.push(th_harness("C03", c03_threads(C03Cfg { sq, prefill, kind: Kind::ReadVec, repoll_fresh: false, tasks, max_polls: 3, sqpoll: false, poll_none: true }, if quick { 2 } else { 3 })));
         }
     }
     let d = |q: usize, t: usize| if quick { q } else { t };
@@ -373,7 +384,14 @@ fn c03(quick: bool) -> Vec<Harness> {
         cfg.costs.drop_op = 1;
         cfg.costs.fresh_waker = 1;
         cfg.report = vec!["C03"];
-        v.push(ops_harness(&format!("sq{sq}"), "C03", cfg, bounds(d(9, 11), d(3, 4), 4)));
+        v.push(ops_harness(&format!("sq{sq}"), "C03", cfg.clone(), bounds(d(9, 11), d(3, 4), 4)));
+        if sq <= 2 {
+            // The caller polls without a timeout.
+            cfg.blocking_enter = true;
+            cfg.kinds = vec![Kind::ReadVec];
+            cfg.allow_drop = false;
+            v.push(ops_harness(&format!("sq{sq}-poll-without-timeout"), "C03", cfg, bounds(d(8, 10), d(2, 3), 4)));
+        }
     }
     // Operations that become ready with their *second* completion (zero-copy sends), and streams of
     // descriptors / readiness events, next to a plain operation.
